@@ -97,6 +97,10 @@ func (f *frame) callTargetInner(cc *ssa.CallCommon, fnVal *Value, args []Value, 
 			key = FuncKey(callee)
 		} else {
 			key = "dynamic." + typeName(fnVal.T)
+			// a contract of a function type may name the function value itself as its first parameter "self"
+			if dc := x.S.Contracts[key]; dc != nil && len(dc.Params) == len(args)+1 && dc.Params[0] == "self" {
+				args = append([]Value{*fnVal}, args...)
+			}
 		}
 	}
 	site := fmt.Sprintf("%s#%d", shortKey(key), f.siteOrd(key, pos))
